@@ -250,6 +250,41 @@ def protocol_aliases(obj, n, table):
     return None
 
 
+def positional_callable(n, table):
+    """def f(a0, .., a_{n-1}): return [row[index] ...]  with exactly n positional parameters"""
+    params = ', '.join(f'a{i}' for i in range(n))
+    env = {'table': table, 'index_of': index_of}
+    exec(f'def f({params}):\n    return [row[index_of([{params}])] for row in table]\n', env)
+    return env['f']
+
+
+def alternative_constructions(n, m, table, impl):
+    """other ways to build the same representation answer exactly like the plain one:
+    PyFunction.from_positional, PyFunction with output_size given, TruthTable from '01' strings / 0-1 ints"""
+    from cirbo.core.truth_table import TruthTable
+    from cirbo.core.python_function import PyFunction
+    qs = impl['queries']
+    alts = [('PyFunction.from_positional', 'PyFunction', lambda: PyFunction.from_positional(positional_callable(n, table))),
+            ('PyFunction(output_size=m)', 'PyFunction', lambda: PyFunction(table_callable(table), n, output_size=m)),
+            ('TruthTable(strings)', 'TruthTable',
+             lambda: TruthTable([''.join('1' if v else '0' for v in r) for r in table])),
+            ('TruthTable(ints)', 'TruthTable', lambda: TruthTable([[int(v) for v in r] for r in table]))]
+    for name, base, mk in alts:
+        if isinstance(impl['answers'][base], tuple):
+            continue
+        try:
+            obj = mk()
+        except Exception as e:  # noqa: BLE001
+            return f'{name}: constructor raised {err_name(e)}'
+        for q, want in zip(qs, impl['answers'][base]):
+            if q[0] in ('evaluate', 'evaluate_at') and len(q[1]) != n:
+                continue        # a wrong-length vector reaches the user's callable: its own exception
+            got = run_query(obj, q)
+            if got != want:
+                return f'{name}.{q[0]}: {q[1:]} gave {got}, {base} gives {want}'
+    return None
+
+
 _IMPL_CACHE = {}
 
 
@@ -265,7 +300,7 @@ def impl_func(case):
     n, m, table = case['n'], case['m'], case['table']
     reps = build_reps(n, table)
     qs = queries(n, m)
-    out = {'queries': qs, 'answers': {}, 'circuit': None, 'alias': {}}
+    out = {'queries': qs, 'answers': {}, 'circuit': None, 'alias': {}, 'alt': None}
     for name in CLASSES:
         obj = reps[name]
         if isinstance(obj, tuple):
@@ -275,6 +310,10 @@ def impl_func(case):
             out['circuit'] = ct.dump_circuit(obj)
         out['answers'][name] = [run_query(obj, q) for q in qs]
         out['alias'][name] = protocol_aliases(obj, n, table)
+    try:
+        out['alt'] = alternative_constructions(n, m, table, out)
+    except Exception as e:  # noqa: BLE001
+        out['alt'] = 'alternative constructions crashed: ' + repr(e)[:200]
     if len(_IMPL_CACHE) > 64:
         _IMPL_CACHE.clear()
     _IMPL_CACHE[key] = out
@@ -687,6 +726,8 @@ def oracle_func(case):
                 return f'{name}.{q[0]}: {q[1:]} raised {a[1]}, the definition gives {S[k]}'
             if a[1] != S[k]:
                 return f'{name}.{q[0]}: {q[1:]} answered {a[1]}, the definition gives {S[k]}'
+    if impl.get('alt'):
+        return impl['alt']
     # the three representations answer alike (implied above except for the witnesses of find_negations)
     for i, q in enumerate(qs):
         if qkey(q) in S or (q[0] == 'find_negations_to_make_symmetric' and all(j < m for j in q[1])):
